@@ -430,7 +430,11 @@ def execute(plan):
                     getattr(c2, k)()
                     dv = np.abs(c2.data - data_now)[mdl.valid]
                     err = float(dv.max()) if dv.size else 0.0
-                    if not err <= 1e-8 * mdl.scale:
+                    # under the single-precision configuration (or with float32 coordinate
+                    # grids still cached) the fit itself is only good to float32 rounding
+                    lowp = config.precision == np.float32 or any(
+                        getattr(getattr(ifg, "_" + w, None), "dtype", None) == np.float32 for w in "xyrt")
+                    if not err <= (1e-4 if lowp else 1e-8) * mdl.scale:
                         cls = ""
                         if k == "remove_power":
                             cls = _power_class(np, mdl)
@@ -493,7 +497,10 @@ def _tilt_plane(np, ifg, before, after, mdl, i, k, bits, viol):
     A = np.stack([x[v] / sx, y[v] / sx, np.ones(int(v.sum()))], axis=1)   # a plane, with or without offset
     coef, *_ = np.linalg.lstsq(A, ch, rcond=None)
     resid = ch - A @ coef
-    if resid.size and not float(np.abs(resid).max()) <= 1e-7 * mdl.scale:
+    lowp = any(np.asarray(getattr(c, w)).dtype == np.float32 for w in "xy")
+    from prysm.conf import config as _cfg
+    lowp = lowp or _cfg.precision == np.float32
+    if resid.size and not float(np.abs(resid).max()) <= (1e-4 if lowp else 1e-7) * mdl.scale:
         viol("tilt-plane", i, k, bits, resid=float(np.abs(resid).max()), scale=mdl.scale)
 
 
